@@ -26,11 +26,11 @@ import (
 	"verifharness/synthrepo"
 )
 
-// one install_if universe in the terms of Model/Repro.v: top depends on the leaf
-// packages Deps; Pkgs are the install_if packages in INDEX order (the order of
-// the per-key lists of installIfMap). Deps is sorted: getPackageDependencies
-// takes equally constrained dependencies in string order, so that is the
-// dependency list the install_if loop starts with.
+// one install_if universe: top depends on the leaf packages Deps; Pkgs are the
+// install_if packages in INDEX order (the order of the per-key lists of
+// installIfMap); an install_if entry is a name or name=version (every package has
+// version 1.0-r0). The index lists the install_if packages, then the leaves, then
+// top; the Coq side runs Model/Resolver.v on exactly that universe.
 type iiPkg struct {
 	Name string   `json:"name"`
 	If   []string `json:"install_if"`
@@ -70,7 +70,18 @@ func iiUniverses() []iiUniverse {
 	// their install order is the order of the install_if loop
 	us = append(us, iiUniverse{Kind: "cli", Deps: []string{"d1", "d2", "d3", "d4"}, Pkgs: []iiPkg{
 		{"z", []string{"y12", "y3"}}, {"y12", []string{"x2", "x1"}}, {"y3", []string{"x3"}}, {"x4", []string{"d4"}}, {"x3", []string{"d3"}},
-		{"x2", []string{"d2"}}, {"x1", []string{"d1"}}, {"w", []string{"d4", "d1"}}, {"c1", []string{"d2"}}, {"c2", []string{"c1", "z"}}}})
+		{"x2", []string{"d2"}}, {"x1", []string{"d1"}}, {"w", []string{"d4", "d1"}}, {"c1", []string{"d2"}}, {"c2", []string{"c1", "z"}},
+		{"xv", []string{"x4=1.0-r0"}}, {"xw", []string{"xv=1.0-r0", "d1"}}, {"xn", []string{"x4=3.0-r0"}}}})
+	// versioned entries (name=version): one that matches the resolved version, one that does not, a mixed pair,
+	// a chain through a versioned entry, a versioned entry naming an appended package
+	us = append(us, iiUniverse{Kind: "versioned", Deps: []string{"d1", "d2", "d3"}, Pkgs: []iiPkg{
+		{"v1", []string{"d1=1.0-r0"}}, {"v2", []string{"d2=2.0-r0"}}, {"v12", []string{"d1=1.0-r0", "d2"}},
+		{"vchain", []string{"v1=1.0-r0"}}, {"v3", []string{"d3=1.0-r0", "v12=1.0-r0"}}, {"vnever", []string{"d3=1.0-r1"}}}})
+	// the list under the bare name hides the list under name=version (the loop looks the second up only when
+	// the first is absent): b is not installed although its entry matches
+	us = append(us, iiUniverse{Kind: "versioned-shadowed", Deps: []string{"d1", "d2"}, Pkgs: []iiPkg{
+		{"a", []string{"d1"}}, {"b", []string{"d1=1.0-r0"}}, {"c", []string{"d2=1.0-r0"}}, {"e", []string{"d2=1.0-r0", "d1"}},
+		{"f", []string{"a=1.0-r0", "c"}}}})
 	return us
 }
 
@@ -229,12 +240,24 @@ func installIfCase(kind string, u iiUniverse, orders [][]string, digests []strin
 	for i, o := range orders {
 		ol[i] = gal.StrList(o)
 	}
-	pl := make([]string, len(u.Pkgs))
-	for i, p := range u.Pkgs {
-		pl[i] = fmt.Sprintf("(IP %s %s)", gal.Str(p.Name), gal.StrList(p.If))
+	// the universe in index order (as resolveOnce / installIfUniverse build it); the synthetic repository of the CLI
+	// builds gives every package its name as origin, the in-process packages have none
+	origin := func(n string) string {
+		if kind == "cli-build" {
+			return n
+		}
+		return ""
 	}
-	term := fmt.Sprintf("{| f_kind := %s; f_pkgs := %s; f_deps := %s; f_orders := %s; f_digests := %s |}",
-		gal.Str(kind), gal.List(pl), gal.StrList(u.Deps), gal.List(ol), gal.StrList(digests))
+	var pl []string
+	for _, p := range u.Pkgs {
+		pl = append(pl, fmt.Sprintf("(RP %s %s %s [] %s)", gal.Str(p.Name), gal.Str("1.0-r0"), gal.Str(origin(p.Name)), gal.StrList(p.If)))
+	}
+	for _, d := range u.Deps {
+		pl = append(pl, fmt.Sprintf("(RP %s %s %s [] [])", gal.Str(d), gal.Str("1.0-r0"), gal.Str(origin(d))))
+	}
+	pl = append(pl, fmt.Sprintf("(RP %s %s %s %s [])", gal.Str("top"), gal.Str("1.0-r0"), gal.Str(origin("top")), gal.StrList(u.Deps)))
+	term := fmt.Sprintf("{| f_kind := %s; f_univ := %s; f_world := %s; f_orders := %s; f_digests := %s |}",
+		gal.Str(kind), gal.List(pl), gal.StrList([]string{"top"}), gal.List(ol), gal.StrList(digests))
 	desc := map[string]any{"kind": kind, "universe": u, "world": []string{"top"}, "runs": runs, "observed_orders": orders, "image_manifest_digests": digests}
 	if len(cmds) > 0 {
 		desc["command_line_of_every_build"] = cmds[0]
